@@ -1559,7 +1559,14 @@ def scalarize_records(repo, full_ref):
                         if kind == "stmt" and (rets and not (len(rets) == 1 and body and body[-1] is rets[0] and (rets[0].value is None or isinstance(rets[0].value, ast.Constant)))):
                             failed = True
                             break
-                        if kind == "test" and not (len(rets) == 1 and body and body[-1] is rets[0] and rets[0].value is not None):
+                        tree = None
+                        if kind == "test" and len(rets) == 2 and body and body[-1] is rets[1] and all(isinstance(r_.value, ast.Constant) and isinstance(r_.value.value, bool) for r_ in rets) \
+                                and rets[0].value.value != rets[1].value.value:
+                            # P; if C: return A; Q; return B   (A, B the two boolean constants): the test-and-act form
+                            k_ = [k for k, b in enumerate(body) if isinstance(b, ast.If) and not b.orelse and len(b.body) == 1 and b.body[0] is rets[0]]
+                            if len(k_) == 1 and not any(isinstance(y, ast.Return) for b in body[:k_[0]] for y in ast.walk(b)):
+                                tree = (k_[0], rets[0].value.value)
+                        if kind == "test" and tree is None and not (len(rets) == 1 and body and body[-1] is rets[0] and rets[0].value is not None):
                             failed = True
                             break
                         pre, mapping = [], {}
@@ -1584,6 +1591,8 @@ def scalarize_records(repo, full_ref):
                             if n_ in caller_names and n_ not in mapping and n_ not in m.params:
                                 mapping[n_] = n_ + "__r"
                         stmts = body[:-1] if rets else body
+                        if tree is not None:
+                            stmts = body[:tree[0]]
                         src = "\n".join(pre + [ast.unparse(b) for b in stmts]) or "pass"
                         mod = ast.parse(src)
                         selfname = m.params[0]
@@ -1596,7 +1605,26 @@ def scalarize_records(repo, full_ref):
                         mod = _SubstNames(mapping).visit(_Fix().visit(mod))
                         fresh = _fresh_stmt(ast.unparse(ast.fix_missing_locations(mod)), s2, owner2)
                         fresh = [f_ for f_ in fresh if not isinstance(f_, ast.Pass)]
-                        if kind == "test":
+                        if kind == "test" and tree is not None:
+                            # the call is true exactly on the path that runs Q: Q goes in front of the branch taken when the call is true
+                            cond = body[tree[0]].test
+                            q_src = "\n".join(ast.unparse(b) for b in body[tree[0] + 1:-1]) or "pass"
+                            q_mod = _SubstNames(mapping).visit(_Fix().visit(ast.parse(q_src)))
+                            q_fresh = [f_ for f_ in _fresh_stmt(ast.unparse(ast.fix_missing_locations(q_mod)), s2, s2) if not isinstance(f_, ast.Pass)]
+                            e_ = _SubstNames(mapping).visit(_Fix().visit(ast.parse(ast.unparse(cond), mode="eval").body))
+                            call_true_when_cond = (rets[0].value.value is True)          # `if C: return True`
+                            # test_is_true <=> (call is true) xor neg
+                            test_when_cond = call_true_when_cond != neg
+                            e_ = ast.parse(("%s" if test_when_cond else "not (%s)") % ast.unparse(ast.fix_missing_locations(e_)), mode="eval").body
+                            _install(s2.test, e_)
+                            # Q runs when the call is (not call_true_when_cond ... ) i.e. on the fall-through path: the call's value there is rets[1]
+                            q_in_body = (rets[1].value.value is True) != neg
+                            if q_in_body:
+                                s2.body[0:0] = q_fresh
+                            else:
+                                s2.orelse[0:0] = q_fresh
+                            blk2[j:j] = fresh
+                        elif kind == "test":
                             e_ = ast.parse(ast.unparse(rets[0].value), mode="eval").body
                             e_ = _SubstNames(mapping).visit(_Fix().visit(e_))
                             e_ = ast.parse(("not (%s)" if neg else "%s") % ast.unparse(ast.fix_missing_locations(e_)), mode="eval").body
